@@ -454,12 +454,20 @@ Definition soft_cursor (st : state) (c1 : client) (U3 : region) : client * regio
 Definition coalesce (st : state) (U : region) : region :=
   if (sMaxRects st >? 0) && (rgn_count U >? sMaxRects st) then rgn_bbox U else U.
 
-(* NOT MODELLED: nRects is a 16-bit field; an update that would announce 65535 or more rectangles (copy +
-   pixel rectangles + 6) is sent as the bounding box of its pixel region, and if the copy rectangles alone
-   reach the field size they are sent as pixels too (rfbserver.c, "goto countRects", fixes b5537e4 and
-   before).  That needs a region of more than 65 000 rectangles (a framebuffer of at least 131 056 x 1 or
-   362 x 362 pixels in a checkerboard); the model announces the count modulo 65536 instead and its
-   theorems about the announced count are only meaningful below that bound (notes/C02.md, "not proved"). *)
+(* nRects is a 16-bit field and 0xFFFF means "terminated by LastRect": an update that would announce 65535 or
+   more rectangles (copy rectangles + pixel rectangles + up to 6 pseudo-rectangles) is repaired in two stages
+   (rfbserver.c, "goto countRects", fixes dccedf3 and b5537e4; the same case split as [announce_fixed] with
+   two_stage = true in Wire/CountsModel.v for the Raw counting rule):
+   1. the pixel region is replaced by its bounding box;
+   2. if that is not enough because the copy rectangles alone reach the field size, the copy region is merged
+      into the pixel region (bounding box again) and nothing is sent as CopyRect.
+   Result: (copy region still sent as CopyRect, pixel region). *)
+Definition count_fix (UC U : region) : region * region :=
+  let nc := rgn_count UC in
+  if nc + rgn_count U + 6 <? 65535 then (UC, U)
+  else let U1 := rgn_bbox U in
+       if nc + rgn_count U1 + 6 <? 65535 then (UC, U1)
+       else (rgn_empty, rgn_bbox (rgn_or U1 UC)).
 (* the part of rfbSendFramebufferUpdate after the early return: C1 = C - M,
    U2 = (slice(M) + C1) & R *)
 (* [ap cf fb copies dx dy raws] = the client's picture after the rectangles of the update; for
@@ -475,10 +483,11 @@ Definition send_update_gen (ap : (Z -> Z -> Z) -> (Z -> Z -> Z) -> list rect -> 
   let M' := r_sub (r_sub (rgn_or M C1) U3) UC in
   let c1 := set_slice (set_regions c M' rgn_empty 0 0 rgn_empty) sy in
   let '(c2, U3c) := soft_cursor st c1 U3 in
-  let U4 := coalesce st U3c in
-  let copies := copy_wrects UC dx dy in
+  let UCf := fst (count_fix UC U3c) in
+  let U4 := coalesce st (snd (count_fix UC U3c)) in
+  let copies := copy_wrects UCf dx dy in
   let raws := filter raw_emitted (rgn_iter false false U4) in
-  let nrects := (rgn_count UC + rgn_count U4 + (if sendShape then 1 else 0)) mod 65536 in
+  let nrects := (rgn_count UCf + rgn_count U4 + (if sendShape then 1 else 0)) mod 65536 in
   let shapeRect := if sendShape
                    then [match sCursor st with
                          | Some (xh, yh, cw, ch) =>
